@@ -101,7 +101,8 @@ def _weather(field, u0, v0, with_time, lay='era5'):
     if key not in _w:
         d = _w['root'] / f'w{len(_w)}'
         write_file(d, field, u0, v0, with_time, lay)
-        _w[key] = Weather(data_dir=d)
+        # (the directory is a path: given as Path or as str in turn)
+        _w[key] = Weather(data_dir=d if len(_w) % 2 == 0 else str(d))
     return _w[key]
 
 
@@ -261,7 +262,7 @@ def run_history(seq):
         from AEIC.utils.standard_atmosphere import altitude_from_pressure_isa_bada4
         from AEIC.weather import Weather
 
-        w = Weather(data_dir=_cache_dir())
+        w = Weather(data_dir=_cache_dir() if len(seq) % 2 == 0 else str(_cache_dir()))
         pt = GroundTrack.Point(Location(longitude=-74.5, latitude=40.5), 90.0)
         alt = float(altitude_from_pressure_isa_bada4(np.array([250.0 * 100.0]))[0])
         devs = []
